@@ -620,6 +620,14 @@ def os_close(I, args, kw):
 def path_method(I, p, name, args, kw):
     if name == "exists":
         return _exists(I, p.e)
+    if name == "is_file":
+        # every entry of the model is a regular file; Path.is_file() swallows OSError and answers False then:
+        # the answer is an arbitrary boolean that implies existence (sound over-approximation)
+        _called(I, "is_file")
+        m = _ghost(I, "fs")
+        b = z3.FreshConst(z3.BoolSort(), "is_file")
+        I.path.assume(z3.Implies(b, z3.Select(m.dom, p.e)))
+        return VBool(b)
     if name == "unlink":
         if args or kw:
             raise Unsupported("Path.unlink(missing_ok=...)")
